@@ -111,6 +111,7 @@ func splitPointOf(rc *RolloutController) float64 {
 func runRollout(t *testing.T, fx *fixtures, c verifCase, w *bufio.Writer) {
 	fmt.Fprintln(w, c.header)
 	for _, line := range c.lines {
+		verifTick()
 		if line == "" || strings.HasPrefix(line, "#") {
 			fmt.Fprintln(w, line)
 			continue
